@@ -131,21 +131,22 @@ Qed.
 (* the node last_left points at after a completed operand *)
 Lemma gcompl_root st fs t sp : gcompl st fs t sp ->
   exists ln, nth_error (nodes st) (nid t) = Some ln /\ calm_def (n_def ln) = true /\
-             opt_nat_eqb (n_right ln) (Some (length (nodes st))) = false.
+             opt_nat_eqb (n_right ln) (Some (length (nodes st))) = false /\
+             secondary_eqb (n_sec ln) S_Subexpression = false.
 Proof.
   intros G. destruct (gc_struct _ _ _ _ G) as [[_ D _ O] Cl _ _ _].
   destruct (closed_operand_root _ _ _ D Cl) as (ln & Hln & Hc). exists ln. split; [exact Hln|]. split; [exact Hc|].
   destruct t as [i d k|i d k a|i d k a|i d k l r|b i k a]; simpl in Cl; try contradiction;
     simpl in D; destruct D as (n & Hn & A); cbn [nid] in Hln; rewrite Hn in Hln; injection Hln as <-.
-  - destruct A as (_ & _ & _ & _ & _ & -> & _). reflexivity.
-  - destruct A as (_ & _ & _ & _ & -> & _). reflexivity.
-  - destruct A as (_ & _ & _ & _ & -> & _ & A7).
+  - destruct A as (A1 & _ & _ & _ & _ & -> & _). split; [reflexivity|]. destruct (n_sec n); try discriminate A1; reflexivity.
+  - destruct A as (A1 & _ & _ & _ & -> & _). split; [reflexivity|]. rewrite A1. reflexivity.
+  - destruct A as (A1 & _ & _ & _ & -> & _ & A7). split; [|rewrite A1; reflexivity].
     apply opt_nat_eqb_some_neq. pose proof (denotes_lt _ _ _ _ A7 (has_id_root a)). lia.
 Qed.
 
 Lemma gcompl_adj st fs t sp : gcompl st fs t sp -> adj_ok (nodes st) (last_left st).
 Proof.
-  intros G. right. rewrite (gc_ll _ _ _ _ G). destruct (gcompl_root _ _ _ _ G) as (ln & Hln & Hc & _).
+  intros G. right. rewrite (gc_ll _ _ _ _ G). destruct (gcompl_root _ _ _ _ G) as (ln & Hln & Hc & _ & _).
   exists (nid t), ln. split; [reflexivity|]. split; [exact Hln|]. apply (calm_facts _ Hc).
 Qed.
 
@@ -182,12 +183,23 @@ Qed.
 
 Lemma forb_pending_prev ps sec : pending_prev ps -> starts_operand sec -> forbidden ps sec false = false.
 Proof.
-  intros Hp Hsec. destruct Hp as [->|[Hb|[->| ->]]].
+  intros Hp Hsec. destruct Hp as [->|[Hb|[->|[->| ->]]]].
   - destruct Hsec as [Hs|[->| ->]]; [destruct sec; try discriminate; reflexivity|reflexivity|reflexivity].
   - destruct ps; try discriminate;
       (destruct Hsec as [Hs|[->| ->]]; [destruct sec; try discriminate; reflexivity|reflexivity|reflexivity]).
   - destruct Hsec as [Hs|[->| ->]]; [destruct sec; try discriminate; reflexivity|reflexivity|reflexivity].
   - destruct Hsec as [Hs|[->| ->]]; [destruct sec; try discriminate; reflexivity|reflexivity|reflexivity].
+  - destruct Hsec as [Hs|[->| ->]]; [destruct sec; try discriminate; reflexivity|reflexivity|reflexivity].
+Qed.
+
+Lemma forb_compl_sep sp st :
+  compl_mode sp st ->
+  forbidden (prev_sec st) S_Subexpression (check_for_list st) = false /\
+  separated st && forbidden_separated (prev_sig st) S_Subexpression (check_for_list st) = false.
+Proof.
+  intros [Hsig M]. destruct sp.
+  - destruct M as (-> & -> & ->). split; [reflexivity|]. cbn [andb]. destruct (prev_sig st); try discriminate; reflexivity.
+  - destruct M as (-> & -> & Hp). split; [|reflexivity]. destruct (prev_sec st); try discriminate; reflexivity.
 Qed.
 
 Lemma forb_pend_start sp st sec :
@@ -372,20 +384,20 @@ Proof.
     + rewrite Hgs. unfold gstack. reflexivity.
     + rewrite Hgs, gstack_length. reflexivity.
   - unfold pend_mode. cbn [prev_sig check_for_list separated prev_sec].
-    split; [reflexivity|]. split; [right; right; right; reflexivity|]. split; [reflexivity|right; right; right; reflexivity].
+    split; [reflexivity|]. split; [right; right; right; left; reflexivity|]. split; [reflexivity|right; right; right; left; reflexivity].
 Qed.
 
 (* a binary operator after a completed operand *)
 Theorem gstep_binary ntoks i tok st fs t sp :
-  gcompl st fs t sp -> is_binary_tok tok = true -> i + 1 < ntoks ->
+  gcompl st fs t sp -> is_binary_tok tok = true -> sep_tok tok = false -> i + 1 < ntoks ->
   exists st' fs' t',
     pop (ref_def tok) fs t = (fs', t') /\ step ntoks i tok st = Ok st' /\
     gpend st' (FBin (length (nodes st)) (ref_def tok) (Some i) t' :: fs') false /\
     length (nodes st') = S (length (nodes st)).
 Proof.
-  intros G Hb Hi. pose proof (gcompl_adj _ _ _ _ G) as Hadj.
+  intros G Hb Hns Hi. pose proof (gcompl_adj _ _ _ _ G) as Hadj.
   destruct G as [CS Hll Hgr Hnll CM].
-  destruct (binary_tok_facts tok Hb) as (sec & my & p & BF).
+  destruct (binary_tok_facts tok Hb Hns) as (sec & my & p & BF).
   destruct (pop (ref_def tok) fs t) as [fs' t'] eqn:Hpop.
   destruct (forb_compl_op sp st sec CM (or_introl (bf_sec _ _ _ _ BF))) as [Hforb Hsep].
   rewrite (step_binary_unfold ntoks i tok st _ (ref_def tok) sec
@@ -417,7 +429,7 @@ Theorem gstep_suffix ntoks i tok st fs t sp :
 Proof.
   intros G Hs. pose proof (gcompl_adj _ _ _ _ G) as Hadj.
   destruct G as [CS Hll Hgr Hnll CM].
-  destruct (suffix_tok_facts tok Hs) as (Hg & Hdrop & Hid & Hplain & my & p & OF).
+  destruct (suffix_tok_facts tok Hs) as (Hg & Hdrop & Hid & Hplain & my & p & OF & _).
   destruct (pop (ref_def tok) fs t) as [fs' t'] eqn:Hpop.
   destruct (forb_compl_op sp st S_UnarySuffix CM (or_intror (or_introl eq_refl))) as [Hforb Hsep].
   rewrite (step_suffix_unfold ntoks i tok st _ (ref_def tok) Hg Hdrop Hid (groups_under _ _ Hgr) Hnll Hadj Hforb Hsep).
@@ -438,7 +450,7 @@ Theorem gstep_close ntoks i st fs t sp b fs' t' :
   exists st', step ntoks i (close_tok b) st = Ok st' /\ gcompl st' fs' t' false /\ nodes st' = nodes st.
 Proof.
   intros G Hcl. pose proof (gcompl_adj _ _ _ _ G) as Hadj.
-  destruct (gcompl_root _ _ _ _ G) as (ln & Hln & Hcalm & Hright).
+  destruct (gcompl_root _ _ _ _ G) as (ln & Hln & Hcalm & Hright & _).
   destruct G as [CS Hll Hgr Hnll CM].
   destruct (forb_compl_op sp st S_EndGrouping CM (or_intror (or_intror eq_refl))) as [Hforb Hsep].
   pose proof (close_on_complete _ _ _ _ _ _ CS Hcl) as CS'.
@@ -473,7 +485,7 @@ Proof.
   unfold make_list_node. rewrite Hll, Hpt. cbn [bind].
   eexists. split; [reflexivity|]. split; [rewrite app_length, Hlen; simpl; lia|].
   apply Hbin; cbn [n_parent n_left n_right]; auto; [|f_equal; lia].
-  split; [reflexivity|]. right. repeat split.
+  split; [reflexivity|]. right. left. repeat split.
 Qed.
 
 (* a value after whitespace after a completed operand: list node, then the value *)
@@ -566,5 +578,91 @@ Proof.
     + rewrite Hgs, Hlen. unfold gstack. reflexivity.
     + rewrite Hgs, gstack_length. reflexivity.
   - unfold pend_mode. cbn [prev_sig check_for_list separated prev_sec].
-    split; [reflexivity|]. split; [right; right; right; reflexivity|]. split; [reflexivity|right; right; right; reflexivity].
+    split; [reflexivity|]. split; [right; right; right; left; reflexivity|]. split; [reflexivity|right; right; right; left; reflexivity].
+Qed.
+
+(* ---- the separator `;` ---- *)
+(* the innermost open bracket: its kind, and the node the parser's group stack names *)
+Fixpoint first_group_kind (fs : list frame) : option bkind :=
+  match fs with
+  | [] => None
+  | FGroup b _ _ :: _ => Some b
+  | _ :: r => first_group_kind r
+  end.
+
+Lemma spine_group_node ns : forall fs c g, spine ns fs c -> first_group fs = Some g ->
+  exists b gn, first_group_kind fs = Some b /\ nth_error ns g = Some gn /\ n_def gn = bdef b.
+Proof.
+  induction fs as [|f r IH]; intros c g Sp H; [discriminate H|]. simpl in Sp. destruct Sp as [S1 S2].
+  destruct f as [i d k l|i d k|b i k]; cbn [first_group first_group_kind] in *.
+  - eapply IH; eauto.
+  - eapply IH; eauto.
+  - injection H as <-. simpl in S1. destruct S1 as (n & Hn & _ & Hd & _). exists b, n. auto.
+Qed.
+
+Lemma group_lookup_spec st fs c : groups_ok st fs -> spine (nodes st) fs c ->
+  match first_group fs with
+  | None => group_lookup st = Ok (D_Drop, 0)
+  | Some g => exists b, first_group_kind fs = Some b /\ group_lookup st = Ok (bdef b, g)
+  end.
+Proof.
+  intros [Hgs Hcg] Sp. unfold group_lookup. rewrite Hgs, Hcg.
+  pose proof (first_group_ids fs) as Hf.
+  destruct (first_group fs) as [g|] eqn:Eg.
+  - destruct (spine_group_node _ _ _ _ Sp Eg) as (b & gn & Hk & Hn & Hd). exists b. split; [exact Hk|].
+    destruct (group_ids fs) as [|g0 l]; [discriminate Hf|]. cbn [hd_error] in Hf. injection Hf as <-.
+    cbn [length cg_of]. unfold gstack. cbn [map rev].
+    rewrite nth_error_app2 by (rewrite rev_length, map_length; lia).
+    rewrite rev_length, map_length, Nat.sub_diag. cbn [nth_error]. rewrite Hn, Hd. reflexivity.
+  - destruct (group_ids fs) as [|g0 l]; [reflexivity|discriminate Hf].
+Qed.
+
+Lemma pop_first_group_kind d fs t fs' t' : pop d fs t = (fs', t') -> first_group_kind fs' = first_group_kind fs.
+Proof.
+  revert t. induction fs as [|f r IH]; intros t H; cbn [pop] in H.
+  - injection H as <- <-. reflexivity.
+  - destruct (stays_below d f) eqn:E.
+    + injection H as <- <-. reflexivity.
+    + rewrite (IH _ H). destruct f; try reflexivity. discriminate E.
+Qed.
+
+Theorem gstep_sep ntoks i st fs t sp :
+  gcompl st fs t sp -> first_group_kind fs <> Some BRound -> i + 1 < ntoks ->
+  exists st' fs' t',
+    pop D_ExpressionSeparator fs t = (fs', t') /\ step ntoks i TT_ExpressionSeparator st = Ok st' /\
+    gpend st' (FBin (length (nodes st)) D_ExpressionSeparator (Some i) t' :: fs') false /\
+    length (nodes st') = S (length (nodes st)).
+Proof.
+  intros G Hk Hi. pose proof (gcompl_adj _ _ _ _ G) as Hadj.
+  destruct (gcompl_root _ _ _ _ G) as (ln & Hln & Hcalm & _ & Hsec).
+  destruct G as [CS Hll Hgr Hnll CM].
+  destruct sep_def_ok as [Hok Hfr]. destruct (op_def_facts _ _ Hok) as (my & p & OF).
+  destruct (pop D_ExpressionSeparator fs t) as [fs' t'] eqn:Hpop.
+  destruct (forb_compl_sep sp st CM) as [Hforb Hsep].
+  pose proof (group_lookup_spec st fs (nid t) Hgr (lk_spine _ _ _ (cs_linked _ _ _ CS))) as Hgl.
+  assert (Hlook : exists ing gix, group_lookup st = Ok (ing, gix) /\ definition_eqb ing D_Group = false /\
+                                 definition_eqb ing D_NestedExpression && Nat.eqb gix (nid t) = false).
+  { destruct (first_group fs) as [g|] eqn:Eg.
+    - destruct Hgl as (b & Hb & Hl). exists (bdef b), g. split; [exact Hl|].
+      destruct b; [exfalso; apply Hk; exact Hb|]. split; [reflexivity|].
+      cbn [bdef definition_eqb definition_index N.eqb Pos.eqb andb]. apply Nat.eqb_neq.
+      pose proof (frames_have_lt _ _ _ (lk_ford _ _ _ (cs_linked _ _ _ CS)) (first_group_has _ _ Eg)) as R.
+      pose proof (ordered_lo_hi t (lk_ord _ _ _ (cs_linked _ _ _ CS))) as R2. lia.
+    - exists D_Drop, 0. split; [exact Hgl|]. split; reflexivity. }
+  destruct Hlook as (ing & gix & Hl & Hng & Hst).
+  rewrite (step_sep_unfold ntoks i st _ ing gix (nid t) ln (groups_under _ _ Hgr) Hnll Hadj Hforb Hsep
+             Hl Hng Hst Hll Hln Hcalm Hsec).
+  destruct (operator_on_complete _ _ _ _ _ _ _ _ _ CS OF Hpop) as (ns' & Hpt & Hlen & Hbin & _).
+  rewrite Hpt. cbn [bind].
+  destruct (Nat.leb_spec ntoks (i + 1)) as [Hle|_]; [lia|].
+  replace (length (nodes st) + 1) with (S (length (nodes st))) by lia.
+  eexists. exists fs', t'. split; [reflexivity|]. split; [reflexivity|].
+  split; [|cbn [nodes]; rewrite app_length, Hlen; simpl; lia].
+  constructor; cbn [nodes last_left next_parent next_last_left];
+    [|reflexivity|reflexivity|eapply groups_ok_same; [| | |exact Hgr]; [reflexivity|reflexivity|]|reflexivity|].
+  - apply Hbin; cbn [n_parent n_left n_right]; auto.
+    split; [reflexivity|]. right. right. split; [reflexivity|]. exists i. split; reflexivity.
+  - cbn [group_ids]. apply (pop_group_ids _ _ _ _ _ Hpop).
+  - unfold pend_mode. cbn [prev_sig check_for_list separated prev_sec]. split; [reflexivity|].
+    split; [right; right; right; right; reflexivity|]. split; [reflexivity|right; right; right; right; reflexivity].
 Qed.
